@@ -132,6 +132,28 @@ def gen_c02(tier, rng):
         for _ in range(rng.randint(3, 24)):
             seq.append(rng.choice(['e:', 'd:']) + hx(rng.choice(blocks)))
         yield ('history', 'sm4hist %s %s' % (hx(k), ' '.join(seq)), None)
+    # histories that contain rejected calls (wrong block length) between valid ones: the object must be unaffected
+    for _ in range(40 if tier == 'thorough' else 10):
+        k = rb(rng, 16)
+        blocks = [rb(rng, 16) for _ in range(3)]
+        seq = []
+        for _ in range(rng.randint(4, 16)):
+            b = rng.choice(blocks)
+            if rng.random() < 0.3:
+                b = rng.choice([b[:15], b + b'\x00', b''])
+            seq.append(rng.choice(['e:', 'd:']) + hx(b))
+        # same block both directions back to back
+        seq += ['e:' + hx(blocks[0]), 'd:' + hx(blocks[0]), 'd:' + hx(blocks[1]), 'e:' + hx(blocks[1])]
+        yield ('history-with-rejected-calls', 'sm4hist %s %s' % (hx(k), ' '.join(seq)), None)
+    # two objects with related keys created one after the other (equal halves, complemented, swapped halves)
+    base = rb(rng, 8)
+    related = [bytes(16), b'\xff' * 16, base + base, bytes(x ^ 0xff for x in base + base), base + bytes(8), bytes(8) + base]
+    x = rb(rng, 16)
+    for k1 in related:
+        for k2 in related:
+            if k1 != k2:
+                yield ('related-keys-sequence', 'sm4 enc %s %s' % (hx(k1), hx(x)), None)
+                yield ('related-keys-sequence', 'sm4 enc %s %s' % (hx(k2), hx(x)), None)
     # wrong lengths (C20 side): must be ERR
     for kl, bl in [(0, 16), (15, 16), (17, 16), (32, 16), (16, 0), (16, 15), (16, 17), (16, 32), (0, 0)]:
         for d in ('enc', 'dec'):
@@ -183,6 +205,18 @@ def gen_c07(tier, rng):
     for _ in range(60 if tier == 'thorough' else 8):
         mode = rng.choice(modes)
         yield ('random-long', 'sm4rt %s %s %s %s' % (mode, hx(rb(rng, 16)), hx(rb(rng, 16)), hx(rb(rng, rng.randint(200, 2000)))), None)
+    # one mode object, several calls: same IV and long data, alternating IVs, encrypt then decrypt on the same object
+    for mode in modes:
+        for _ in range(6 if tier == 'thorough' else 2):
+            k = rb(rng, 16)
+            iv1, iv2 = rb(rng, 16), rb(rng, 16)
+            long1 = rb(rng, rng.choice([1000, 1008, 1500, 2048]))
+            long2 = rb(rng, rng.choice([1001, 1600]))
+            short = rb(rng, rng.randint(0, 40))
+            seq = ['e:%s:%s' % (hx(iv1), hx(long1)), 'e:%s:%s' % (hx(iv1), hx(long2)), 'e:%s:%s' % (hx(iv2), hx(short)),
+                   'e:%s:%s' % (hx(iv1), hx(short)), 'e:%s:%s' % (hx(iv1), hx(long1)), 'd:%s:%s' % (hx(iv1), hx(long1[:1488])),
+                   'd:%s:%s' % (hx(iv1), hx(b'')), 'e:%s:%s' % (hx(iv1[:15]), hx(short)), 'e:%s:%s' % (hx(iv1), hx(short))]
+            yield ('mode-object-history', 'sm4modehist %s %s %s' % (mode, hx(k), ' '.join(seq)), None)
     # IV / key of the wrong size -> error
     for mode in modes:
         for ivl in (0, 1, 15, 17, 32):
@@ -203,7 +237,40 @@ def compositions(total):
             yield [first] + rest
 
 
+ZUC_D = [0x44D7, 0x26BC, 0x626B, 0x135E, 0x5789, 0x35E2, 0x7135, 0x09AF, 0x4D78, 0x2F13, 0x6BC4, 0x1AF1, 0x5E26, 0x3C4D, 0x789A, 0x47AC]
+
+
+def zuc_feedback_zero_key(rng, offset=0):
+    """(key, iv) such that s16 of initialisation round 1 is congruent to `offset` mod 2^31-1 (offset 0: the canonical
+    representative 2^31-1 must be stored; offsets 1 and 2^31-2 are its neighbours). Round 1 has R1 = R2 = 0, so
+    W = X0 and u = X0 >> 1 with X0 = s15H || s14L: everything is linear in the loaded cells."""
+    M = (1 << 31) - 1
+    inv257 = pow(257, -1, M)
+    while True:
+        k = bytearray(rb(rng, 16))
+        iv = bytearray(rb(rng, 16))
+        cell = lambda i: (k[i] << 23) | (ZUC_D[i] << 8) | iv[i]
+        for _ in range(70000):
+            k[4] = rng.randrange(256); iv[4] = rng.randrange(256)
+            s = [cell(i) for i in range(16)]
+            x0 = ((s[15] & 0x7FFF8000) << 1) | (s[14] & 0xFFFF)
+            u = x0 >> 1
+            rest = ((1 << 15) * s[15] + (1 << 17) * s[13] + (1 << 21) * s[10] + (1 << 20) * s[4] + u) % M
+            s0 = (offset - rest) * inv257 % M
+            for cand in (s0, s0 + M if s0 == 0 else None):
+                if cand is None:
+                    continue
+                if (cand >> 8) & 0x7FFF == ZUC_D[0] and cand < (1 << 31):
+                    k[0] = cand >> 23
+                    iv[0] = cand & 0xFF
+                    return bytes(k), bytes(iv)
+
+
 def gen_c08(tier, rng):
+    M = (1 << 31) - 1
+    for off in ([0, 0, 0, 1, M - 1] if tier != 'thorough' else [0] * 8 + [1, 2, M - 1, M - 2]):
+        k, iv = zuc_feedback_zero_key(rng, off)
+        yield ('lfsr-feedback=%s-mod-2^31-1' % ('0' if off == 0 else 'near0'), 'zuc %s %s 8' % (hx(k), hx(iv)), None)
     for name, d in std_vectors('zuc.'):
         yield ('std-vector', 'zuc %s %s 2' % (d['key'], d['iv']), 'OK %s,%s' % (d['z1'], d['z2']))
     keys = [(bytes(16), bytes(16)), (b'\xff' * 16, b'\xff' * 16),
